@@ -30,6 +30,7 @@ type Parser struct {
 	Errors              []error
 	DefineInfos         []string
 	BeforeString        string
+	eosReads            int
 }
 
 func New(lexer lexer.Lexer, file string) Parser {
